@@ -54,17 +54,28 @@ class C03(PropertyCheck):
         "autoarray/dataset/imaging/dataset.py:Imaging.__init__",
         "autoarray/dataset/imaging/dataset.py:Imaging.apply_mask",
         "autoarray/dataset/imaging/dataset.py:Imaging.convolver",
+        "autoarray/dataset/imaging/dataset.py:Imaging.apply_noise_scaling",
+        "autoarray/dataset/imaging/dataset.py:Imaging.apply_over_sampling",
+        "autoarray/dataset/abstract/dataset.py:AbstractDataset.__init__",
+        "autoarray/structures/arrays/uniform_2d.py:Array2D.full",
+        "autoarray/structures/arrays/uniform_2d.py:Array2D.no_mask",
+        "autoarray/structures/arrays/array_2d_util.py:convert_array_2d",
+        "autoarray/mask/mask_2d.py:Mask2D.all_false",
+        "autoarray/dataset/preprocess.py:data_eps_with_poisson_noise_added",
     ]
     trusted_extra = [
-        "scipy.signal.convolve2d(mode='same') is not modelled: Spec.convSame is its assumed contract (true "
-        "convolution, zero outside the frame), checked against the implementation on every 'same'/'simulate' case",
-        "numpy glue of Array2D/Kernel2D construction, `.slim`, Kernel2D normalisation and the SimulatorImaging / "
-        "Imaging.apply_mask plumbing are covered by correspondence only",
+        "scipy.signal.convolve2d(mode='same') is not modelled: it is a parameter of the pipeline model with the "
+        "contract Conv2dSameContract (true convolution, zero outside the frame), checked against the implementation "
+        "on every 'same'/'simulate' case",
+        "numpy glue of Array2D/Kernel2D construction and `.slim`; the Poisson draw the simulator performs and discards "
+        "with the noise switches off; noise covariance / over-sampling / grids of Imaging: correspondence only",
         "IEEE rounding: generated kernels/images are small integers or quarter-dyadics so every product and sum "
         "is an exact double and comparisons are exact",
     ]
     assumptions = [
         "tree carries repair D1 (fixes/D1-convolve-matrix-negative.patch): convolve_matrix_jit skips only exact zeros",
+        "tree carries repair D153 (fixes/D153-simulator-psf-normalisation-flag.patch): the simulator and the Imaging "
+        "rebuilds forward the PSF-normalisation flag",
     ]
 
     # ------------------------------------------------------------------ generation helpers
@@ -115,6 +126,19 @@ class C03(PropertyCheck):
         S = sum(vals)
         return {**K, "vals": qlist([v / S for v in vals])}
 
+    @classmethod
+    def _effective_kernel(cls, case):
+        """the PSF the whole simulate -> mask -> fit pipeline must use: normalised exactly once iff asked"""
+        return cls._normalised(case["kernel"]) if case.get("normalize_psf", True) else case["kernel"]
+
+    @classmethod
+    def _background(cls, case):
+        """sky level lifting the (signed) blurred image above zero for the Poisson draw the simulator always
+        performs (and discards); an integer, so adding and subtracting it is exact"""
+        A = sum(abs(Fraction(v)) for v in case["image"])
+        K = sum(abs(Fraction(v)) for v in cls._effective_kernel(case)["vals"])
+        return int(A * K) + 1
+
     def _frame_for(self, rng, kh, kw, lo, hi):
         h = rng.randint(max(lo, kh + 1), max(hi, kh + 2))
         w = rng.randint(max(lo, kw + 1), max(hi, kw + 2))
@@ -162,13 +186,17 @@ class C03(PropertyCheck):
             K = self._kernel(rng, kh, kw, "signed")
             vals = [Fraction(v) for v in K["vals"]]
             c = (kh // 2) * kw + kw // 2
-            # entries sum to +-2^k: the normalisation the simulator and the dataset both apply is then exact
-            S = rng.choice([1, 1, 2, 4, 8, -2, Fraction(1, 2)])
-            vals[c] += S - sum(vals)
+            normalize = rng.random() < 0.5
+            if normalize:
+                # entries sum to +-2^k: the (repeated) normalisation of the pipeline is then exact in doubles
+                S = rng.choice([1, 2, 4, 8, -2, Fraction(1, 2)])
+                vals[c] += S - sum(vals)
+            elif rng.random() < 0.25:
+                vals[c] -= sum(vals)     # normalize_psf=False admits kernels summing to zero
             K = {**K, "vals": qlist(vals)}
             A = self._values(rng, h * w, rng.choice(["int", "pos", "sparse"]))
-            yield {"tag": f"simulate_{mk}", "kind": "simulate", "mask": mask_json(m), "kernel": K,
-                   "image": qlist(A)}
+            yield {"tag": f"simulate_{'norm' if normalize else 'raw'}_{mk}", "kind": "simulate",
+                   "mask": mask_json(m), "kernel": K, "image": qlist(A), "normalize_psf": normalize}
         # 3. rejected inputs: even kernel sides; footprints leaving the frame
         for _ in range(12 if quick else 80):
             kh, kw = rng.choice([(2, 3), (3, 2), (4, 4), (2, 1), (1, 4), (6, 3)])
@@ -260,15 +288,12 @@ class C03(PropertyCheck):
         if kind == "simulate":
             img = aa.Array2D.no_mask(values=_farr(case["image"], (h, w)), pixel_scales=1.0)
             A = np.asarray(img.native.array)
-            Kn = np.asarray(kernel.native.array)
-            # background level lifts the (signed) convolved image above zero for the Poisson draw the
-            # simulator always performs; it is subtracted again (exact in integers)
-            bg = float(int(np.abs(A).sum() * np.abs(Kn).sum() / abs(Kn.sum())) + 1)
+            bg = float(self._background(case))
             sim = aa.SimulatorImaging(exposure_time=1.0, background_sky_level=bg, psf=kernel,
-                                      normalize_psf=True, add_poisson_noise_to_data=False,
+                                      normalize_psf=bool(case.get("normalize_psf", True)),
+                                      add_poisson_noise_to_data=False,
                                       include_poisson_noise_in_noise_map=False, noise_seed=1)
             ds = sim.via_image_from(image=img)
-            data_native = np.asarray(ds.data.native.array)
             masked = ds.apply_mask(mask=mask)
             if tuple(masked.data.shape_native) != (h, w):
                 return {"err": "padded", "shape": list(masked.data.shape_native)}
@@ -277,7 +302,10 @@ class C03(PropertyCheck):
             model = cv2.convolve_image(image=aa.Array2D(values=A, mask=masked.mask),
                                        blurring_image=aa.Array2D(values=A, mask=bm2))
             resid = np.asarray(masked.data.slim.array) - np.asarray(model.slim.array)
-            return {"data": qlist(data_native.ravel()), "model": qlist(np.asarray(model.slim.array)),
+            return {"simulated": qlist(np.asarray(ds.data.native.array).ravel()),
+                    "data": qlist(np.asarray(masked.data.slim.array)),
+                    "psf": qlist(np.asarray(masked.psf.native.array).ravel()),
+                    "model": qlist(np.asarray(model.slim.array)),
                     "residual": qlist(resid)}
         raise ValueError(kind)
 
@@ -285,8 +313,10 @@ class C03(PropertyCheck):
     def model_requests(self, case, impl_obs):
         kind = case["kind"]
         if kind == "same":
-            return [{"op": "c03.conv_same", "h": case["h"], "w": case["w"], "kernel": case["kernel"],
-                     "image": case["image"]}]
+            h, w = case["h"], case["w"]
+            mm = [[(y * 3 + x) % 4 == 1 for x in range(w)] for y in range(h)]
+            return [{"op": "c03.conv_same", "h": h, "w": w, "kernel": case["kernel"],
+                     "image": case["image"], "gather_mask": mask_json(mm)}]
         if kind == "convolve":
             return [{"op": "c03.convolve", "mask": case["mask"], "kernel": case["kernel"],
                      "image": case["image"], "blur": case["blur"]}]
@@ -294,12 +324,10 @@ class C03(PropertyCheck):
             return [{"op": "c03.convolve_matrix", "mask": case["mask"], "kernel": case["kernel"],
                      "matrix": case["matrix"], "ncols": case["ncols"]}]
         if kind == "simulate":
-            mj = case["mask"]
-            Kn = self._normalised(case["kernel"])   # what `normalize_psf` / `use_normalized_psf` produce
-            return [{"op": "c03.conv_same", "h": mj["h"], "w": mj["w"], "kernel": Kn,
-                     "image": case["image"]},
-                    {"op": "c03.convolve", "mask": mj, "kernel": Kn, "image": case["image"],
-                     "blur": case["image"]}]
+            return [{"op": "c03.simulate_fit", "mask": case["mask"], "kernel": case["kernel"],
+                     "image": case["image"], "normalize_psf": bool(case.get("normalize_psf", True)),
+                     "background": str(self._background(case)), "exposure": "1",
+                     "subtract_background": True}]
         if kind == "operator":
             if "err" in impl_obs:
                 return [{"op": "c03.convolve", "mask": case["mask"], "kernel": case["kernel"],
@@ -320,13 +348,13 @@ class C03(PropertyCheck):
                 return {"err": r["err"]}
         kind = case["kind"]
         if kind == "same":
-            return {"same": responses[0]["ok"]}
+            return responses[0]["ok"]
         if kind == "convolve":
             return responses[0]["ok"]
         if kind == "matrix":
             return {"matrix": responses[0]["ok"]}
         if kind == "simulate":
-            return {"data": responses[0]["ok"], "model": responses[1]["ok"]["blurred"]}
+            return responses[0]["ok"]
         if kind == "operator":
             return {"columns": [r["ok"]["blurred"] for r in responses]}
         raise ValueError(kind)
@@ -348,10 +376,6 @@ class C03(PropertyCheck):
             a = {"err": impl_obs.get("err")} if "err" in impl_obs else impl_obs
             return cmp.diff(a, model_obs)
         kind = case["kind"]
-        if kind == "same":
-            return cmp.diff({"same": impl_obs["same"]}, model_obs)
-        if kind == "simulate":
-            return cmp.diff({"data": impl_obs["data"], "model": impl_obs["model"]}, model_obs)
         if kind == "operator":
             return cmp.diff({"columns": impl_obs["columns"]}, model_obs)
         return cmp.diff(impl_obs, model_obs)
@@ -395,9 +419,9 @@ class C03(PropertyCheck):
     def _oracle(self, case, obs):
         kind = case["kind"]
         kh, kw, K = self._kernel_of(case)
-        if kind == "simulate":   # the PSF of a simulated dataset is the normalised kernel
-            S = sum(v for r in K for v in r)
-            K = [[v / S for v in r] for r in K]
+        if kind == "simulate":   # the one PSF of the whole pipeline
+            Ke = [Fraction(v) for v in self._effective_kernel(case)["vals"]]
+            K = [Ke[i * kw:(i + 1) * kw] for i in range(kh)]
         even = kh % 2 == 0 or kw % 2 == 0
         if kind == "same":
             if even:
@@ -484,8 +508,13 @@ class C03(PropertyCheck):
         if kind == "simulate":
             A = self._native(case["image"], h, w)
             exp = [self._conv_at(A, K, kh, kw, h, w, (y, x)) for y in range(h) for x in range(w)]
-            if [Fraction(v) for v in obs["data"]] != exp:
-                return False, "noise-free simulated data is not the true whole-frame convolution"
+            if [Fraction(v) for v in obs["simulated"]] != exp:
+                return False, "noise-free simulated data is not the true whole-frame convolution with the simulator's PSF"
+            if [Fraction(v) for v in obs["psf"]] != [v for r in K for v in r]:
+                return False, ("the masked dataset's PSF is not the kernel the data were simulated with "
+                               "(normalised exactly once iff normalize_psf)")
+            if [Fraction(v) for v in obs["data"]] != [exp[y * w + x] for (y, x) in unm]:
+                return False, "masked data are not the simulated data gathered at the mask"
             if any(Fraction(v) != 0 for v in obs["residual"]):
                 return False, f"noise-free simulated image is not fitted with zero residual: {obs['residual'][:6]}"
             return True, ""
@@ -548,7 +577,8 @@ class C03(PropertyCheck):
             "operator": ["C03.convolve_eq_true_convolution", "C03.convolve_is_linear"],
             "matrix": ["C03.convolve_matrix_columnwise", "C03.convolve_matrix_is_linear"],
             "same": ["C03.whole_frame_agrees"],
-            "simulate": ["C03.whole_frame_agrees", "C03.simulated_zero_residual"],
+            "simulate": ["C03.whole_frame_agrees", "C03.simulated_zero_residual", "C03.pipeline_zero_residual",
+                         "C03.pipeline_psf_normalised_once"],
         }.get(case["kind"], ["C03.*"])
 
 
